@@ -399,8 +399,74 @@ func (g *c6gen) rpc(parent *c6stmt, kw string) {
 	}
 }
 
+// ---- pattern statements ----------------------------------------------------------------------
+// A pattern statement is a statement of its own: two of them with the same expression text (in one
+// type, in two leaves, in a typedef, in another module text loaded by the same process) each keep
+// their own description, reference, error-message, error-app-tag, modifier and extensions. Every
+// module gets a section whose pattern texts come from a sub-pool of 3 of these, so that every module
+// repeats at least one expression and successive modules share expressions.
+var c6patTexts = []string{"[0-9]+", "[a-z]+", "\\d{2}", "a|b", "x\"y", "[a-f]{4}-c06", "(ab)*c?", ".*"}
+
+func (g *c6gen) patternStmt(r *gen.Rng, t *c6stmt, text string) {
+	p := t.add("pattern", text, false)
+	if r.Chance(1, 4) {
+		return // bare: pattern "x";
+	}
+	// sub-statements in any order
+	kinds := []string{"description", "reference", "error-message", "error-app-tag", "modifier", "m:e"}
+	for i := len(kinds) - 1; i > 0; i-- {
+		j := r.Intn(i + 1)
+		kinds[i], kinds[j] = kinds[j], kinds[i]
+	}
+	for _, k := range kinds {
+		switch k {
+		case "modifier":
+			if r.Chance(1, 3) {
+				p.add("modifier", "invert-match", true)
+			}
+		case "m:e":
+			if r.Chance(1, 4) {
+				p.add("m:e", "pat-"+c6word(r), false)
+			}
+		default:
+			if r.Chance(2, 5) {
+				p.add(k, c6word(r), false)
+			}
+		}
+	}
+}
+
+func (g *c6gen) patternSection(m *c6stmt, r *gen.Rng) {
+	pool := append([]string(nil), c6patTexts...)
+	for i := len(pool) - 1; i > 0; i-- {
+		j := r.Intn(i + 1)
+		pool[i], pool[j] = pool[j], pool[i]
+	}
+	pool = pool[:3]
+	total := 0
+	stringType := func(s *c6stmt, min int) {
+		t := s.add("type", "string", true)
+		for n := min + r.Intn(3); n > 0; n-- {
+			g.patternStmt(r, t, gen.Pick(r, pool))
+			total++
+		}
+	}
+	if r.Chance(1, 2) {
+		stringType(m.add("typedef", g.id("ptd"), true), 1)
+	}
+	c := m.add("container", g.id("pats"), true)
+	for n := 2 + r.Intn(3); n > 0 || total < 4; n-- {
+		kw := "leaf"
+		if r.Chance(1, 5) {
+			kw = "leaf-list"
+		}
+		stringType(c.add(kw, g.id("pf"), true), 1)
+	}
+}
+
 func (g *c6gen) module() *c6stmt {
 	r := g.r
+	pr := *g.r // the pattern section draws from a stream of its own: the rest of the module is as before
 	m := &c6stmt{kw: "module", arg: "m", raw: true}
 	m.add("yang-version", "1.1", true)
 	m.add("namespace", "urn:"+c6word(r), false)
@@ -479,6 +545,7 @@ func (g *c6gen) module() *c6stmt {
 			g.leaf(n, g.id("f"), false)
 		}
 	}
+	g.patternSection(m, pr.Fork(0x706174))
 	return m
 }
 
@@ -813,8 +880,7 @@ func (rd *c6reader) typ(path string, ts *c6stmt, t *meta.Type) {
 			rd.recs = append(rd.recs, c6rec{path: path + "/pattern*", written: []string{strconv.Itoa(len(ps))}, read: []string{strconv.Itoa(len(got))}})
 		} else {
 			for i, p := range ps {
-				rd.recs = append(rd.recs, c6rec{path: path + "/pattern", written: []string{p.arg}, read: []string{got[i].Pattern}})
-				rd.scalars(fmt.Sprintf("%s/pattern[%d]", path, i), &c6stmt{kw: "pattern", subs: p.subs}, got[i])
+				rd.recs = append(rd.recs, c6patternRec(fmt.Sprintf("%s/pattern[%d]", path, i), p, got[i]))
 			}
 		}
 	}
@@ -847,6 +913,39 @@ func (rd *c6reader) typ(path string, ts *c6stmt, t *meta.Type) {
 		}
 		rd.recs = append(rd.recs, c6rec{path: path + "/union", written: wr, read: got})
 	}
+}
+
+// c6patternFields: everything a pattern statement can carry, whether written or not (a statement
+// that was not written reads back empty / not inverted / no extension)
+func c6patternFields(p *meta.Pattern) []string {
+	mod := "<none>"
+	if p.Inverted() {
+		mod = "invert-match"
+	}
+	return []string{"pattern=" + p.Pattern, "description=" + p.Description(), "reference=" + p.Reference(),
+		"error-message=" + p.ErrorMessage(), "error-app-tag=" + p.ErrorAppTag(), "modifier=" + mod,
+		"extensions=" + strings.Join(c6extsOf(p, ""), "|")}
+}
+
+func c6patternRec(path string, st *c6stmt, p *meta.Pattern) c6rec {
+	one := func(kw string) string {
+		var as []string
+		for _, s := range st.find(kw) {
+			as = append(as, s.arg)
+		}
+		return strings.Join(as, "|")
+	}
+	mod := "<none>"
+	if len(st.find("modifier")) > 0 {
+		mod = one("modifier")
+	}
+	var exts []string
+	for _, e := range st.find("m:e") {
+		exts = append(exts, "m:e "+e.arg)
+	}
+	return c6rec{path: path, written: []string{"pattern=" + st.arg, "description=" + one("description"), "reference=" + one("reference"),
+		"error-message=" + one("error-message"), "error-app-tag=" + one("error-app-tag"), "modifier=" + mod,
+		"extensions=" + strings.Join(exts, "|")}, read: c6patternFields(p)}
 }
 
 // canonical dump of everything the reader looked at (map-derived collections sorted by the walk itself)
@@ -929,6 +1028,7 @@ func c06Statements(ctx *core.Ctx, r *gen.Rng) {
 	if ctx.Tier == "search" {
 		n = 240
 	}
+	var prev *c6loaded
 	for i := 0; i < n; i++ {
 		g := &c6gen{r: r.Fork(uint64(i))}
 		tree := g.module()
@@ -937,6 +1037,7 @@ func c06Statements(ctx *core.Ctx, r *gen.Rng) {
 		text := sb.String()
 		var dumps []string
 		var recs []c6rec
+		var first *meta.Module
 		loadErr := ""
 		for k := 0; k < 3; k++ {
 			m, err := c6load(text)
@@ -948,6 +1049,7 @@ func c06Statements(ctx *core.Ctx, r *gen.Rng) {
 			rd.walk("/m", tree, m)
 			if k == 0 {
 				recs = rd.recs
+				first = m
 			}
 			dumps = append(dumps, c6dump(rd.recs)+c6dumpModule(m))
 		}
@@ -982,7 +1084,63 @@ func c06Statements(ctx *core.Ctx, r *gen.Rng) {
 		ctx.Add(emit.App("CDet", emit.Nat(len(dumps)), emit.Bool(eq)),
 			map[string]interface{}{"kind": "determinism", "module_index": i, "loads": len(dumps), "all_equal": eq, "module": text}, true)
 		ctx.Count("D:modules")
+		// successive loads of different texts in one process: the schema compiled from the previous text is
+		// still what it was, and the previous text loaded again still gives the same schema
+		if prev != nil {
+			reread := c6dumpOf(prev.tree, prev.m)
+			reload := "load error"
+			if m, err := c6load(prev.text); err == nil {
+				reload = c6dumpOf(prev.tree, m)
+			} else {
+				reload += ": " + err.Error()
+			}
+			d := map[string]interface{}{"kind": "interleaved-loads", "module_index": prev.idx, "other_module_index": i,
+				"reread_equal": reread == prev.dump, "reload_equal": reload == prev.dump}
+			if reread != prev.dump || reload != prev.dump {
+				d["module"], d["other_module"] = prev.text, text
+				d["reread_first_difference"] = c6firstDiff(prev.dump, reread)
+				d["reload_first_difference"] = c6firstDiff(prev.dump, reload)
+			}
+			ctx.Add(emit.App("CInter", emit.Nat(1), emit.Bool(reread == prev.dump), emit.Bool(reload == prev.dump)), d, true)
+			ctx.Count("D:interleaved")
+		}
+		prev = &c6loaded{idx: i, tree: tree, text: text, m: first, dump: dumps[0]}
 	}
+}
+
+type c6loaded struct {
+	idx  int
+	tree *c6stmt
+	text string
+	m    *meta.Module
+	dump string
+}
+
+func c6dumpOf(tree *c6stmt, m *meta.Module) string {
+	rd := &c6reader{}
+	rd.walk("/m", tree, m)
+	return c6dump(rd.recs) + c6dumpModule(m)
+}
+
+// first line on which two dumps differ: [was, now]
+func c6firstDiff(a, b string) []string {
+	if a == b {
+		return nil
+	}
+	la, lb := strings.Split(a, "\n"), strings.Split(b, "\n")
+	for i := 0; i < len(la) || i < len(lb); i++ {
+		x, y := "<end>", "<end>"
+		if i < len(la) {
+			x = la[i]
+		}
+		if i < len(lb) {
+			y = lb[i]
+		}
+		if x != y {
+			return []string{x, y}
+		}
+	}
+	return nil
 }
 
 func c6pathClass(p string) string {
